@@ -289,6 +289,7 @@ fn components(thorough: bool) -> (Vec<&'static str>, Vec<(&'static str, Option<(
         ("/%2f%2f", Ok("//")),
         ("/prod%2F", Ok("prod/")),
         ("/%20v%20", Ok(" v ")),
+        ("/a%252Fb", Ok("a%2Fb")),
         ("/v/extra", Err("ExtraUrlPathSegments")),
         ("/a/b/c", Err("ExtraUrlPathSegments")),
     ];
